@@ -103,7 +103,7 @@ def modelload(work):
     def judge(evs):
         tp = os.path.join(work, "ml.json")
         json.dump(evs, open(tp, "w"))
-        rc, out = common.run_tlc("ModelLoad", "CONSTANTS NEvents = %d\nINIT TInit\nNEXT Step\nPOSTCONDITION AllConsumed\nCHECK_DEADLOCK FALSE\n" % len(evs), env={"MODEL_TRACE": tp, "MODEL_ZOO": zenc})
+        rc, out = common.run_tlc("ModelLoad", "CONSTANTS NEvents = %d NInter = 0\nINIT TInit\nNEXT Step\nPOSTCONDITION AllConsumed\nCHECK_DEADLOCK FALSE\n" % len(evs), env={"MODEL_TRACE": tp, "MODEL_ZOO": zenc})
         assert '"@DONE' in out, out[-1500:]
         return list(common.tagged_lines(out, "@F"))
     expect("ModelLoad", judge([lg, ev]), None)
